@@ -1520,7 +1520,7 @@ def constrain_sum_bounded(x: np.array, s: float, lb: np.array, ub: np.array) -> 
     :param s: Target value for ``sum(x)``
     :param lb: Array of lower bounds, same size as x
     :param ub: Array of upper bounds, same size as x
-    :param tolerance: Absolute tolerance for the constrained sum ``s``
+    :param tolerance: Relative tolerance for the constrained sum ``s`` (fixed at 1e-6)
     :return: Array same size as ``x``, such that ``sum(x)==s`` and ``x[i]>=lb`` and ``x[i]<=ub`` for ``i<len(x)``
     :raises: :class:`FailedConstraint` if it was not possible to constrain
     """
@@ -1556,5 +1556,8 @@ def constrain_sum_bounded(x: np.array, s: float, lb: np.array, ub: np.array) -> 
 
     # Enforce upper/lower bound constraints to prevent numerically exceeding them
     sol = np.minimum(np.maximum(res["x"], lb_scaled), ub_scaled) * s
-    assert np.isclose(sol.sum(), s), f"FAILED as {sol} has a total of {sol.sum()} which is not sufficiently close to the target value {s}"
+    if not abs(sol.sum() - s) <= tolerance * abs(s):
+        # The solver (or the clipping above) left the total further from the target than the documented tolerance
+        logger.warning(f"constrain_sum_bounded() returned {sol} with a total of {sol.sum()} which is not sufficiently close to the target value {s} - rejecting proposed parameters")
+        raise FailedConstraint()
     return sol
